@@ -99,7 +99,7 @@ Definition classify_id (v : ustr) : tkind :=
   else if mem_str v storage_class then STORAGE_CLASS
   else if ueqb v (cp "class") then KW_CLASS
   else if ueqb v (cp "enum") then KW_ENUM
-  else if ueqb v (cp "namespace") then KW_NAMESPACE
+  else if ueqb v (cp "namespace") then NAMESPACE   (* the keyword and "::" share the token type *)
   else if ueqb v (cp "struct") then KW_STRUCT
   else if ueqb v (cp "template") then KW_TEMPLATE
   else if ueqb v (cp "typename") then KW_TYPENAME
